@@ -17,6 +17,13 @@ func cmdProbe(name string) {
 		b := newCtx(w)
 		fmt.Println("incoming swap-out request on 100:1:0:", b.Step("new outReceiver btc scid=100:1:0"), b.state())
 		fmt.Println("active:", w.svc.VerifActiveSwaps())
+	case "c10-fresh":
+		// SwapOut() preempted right after lockSwap (before its first event), then a peer request on the same channel
+		id, err := w.svc.VerifLockFresh("100x1x0", selfNode, peerNode, true)
+		fmt.Println("local swap-out locked on 100x1x0 (first event not yet sent):", id[:8], err)
+		b := newCtx(w)
+		fmt.Println("incoming swap-out request on 100x1x0:", b.Step("new outReceiver btc scid=100x1x0"), b.state())
+		fmt.Println("active:", len(w.svc.VerifActiveSwaps()))
 	case "c09-id":
 		a := newCtx(w)
 		fmt.Println("incoming swap-out request:", a.Step("new outReceiver btc"), a.state())
